@@ -1,6 +1,7 @@
 // positive example for R07b / R07d: a reference member bound to a dying non-empty temporary; *end()
 #include <string>
 #include <vector>
+#include <boost/graph/adjacency_list.hpp>
 namespace positive {
 struct Holder {
     const std::string &name;
@@ -28,6 +29,15 @@ inline std::size_t wrapped_reserve(const std::vector<int> &v) {
     out.reserve(v.size() - 1);            // R07h positive: wraps for an empty input
     return out.capacity();
 }
+typedef boost::adjacency_list<boost::vecS, boost::vecS, boost::undirectedS> rgraph_t;
+inline void visit_r07j(const rgraph_t &g, std::size_t u, std::vector<bool> &seen) {   // R07j positive: recursion along the graph
+    seen[u] = true;
+    auto r = boost::out_edges(u, g);
+    for (auto it = r.first; it != r.second; ++it) {
+        std::size_t w = boost::target(*it, g);
+        if (!seen[w]) visit_r07j(g, w, seen);
+    }
+}
 inline int past_end(const std::vector<int> &v) {
     return *(v.end());                    // R07d
 }
@@ -43,4 +53,4 @@ inline int bidirectional_signed_dijkstra(const fake_frontier &other, int c, int 
     return c + other.get_dist(w);
 }
 }
-int use_c07() { parmcb::fake_frontier ff = {{0, 1, 2, 3}}; return parmcb::bidirectional_signed_dijkstra(ff, 1, 2) + (int) positive::wrapped_reserve(std::vector<int>()) + (int) positive::reused_scratch(3) + (int) positive::dangling() + positive::dangling2("x") + positive::past_end(std::vector<int>()); }
+int use_c07() { parmcb::fake_frontier ff = {{0, 1, 2, 3}}; return parmcb::bidirectional_signed_dijkstra(ff, 1, 2) + ([] { positive::rgraph_t g(2); std::vector<bool> s(2); positive::visit_r07j(g, 0, s); return 0; })() + (int) positive::wrapped_reserve(std::vector<int>()) + (int) positive::reused_scratch(3) + (int) positive::dangling() + positive::dangling2("x") + positive::past_end(std::vector<int>()); }
